@@ -356,7 +356,7 @@ structure Package where
 deriving DecidableEq, Repr
 
 inductive Err where
-  | badLabel | dupLabel | glob | output | binOutput | binNotFile | timeout | nilEntry
+  | badLabel | dupLabel | glob | output | binOutput | binNotFile | timeout | nilEntry | badName
 deriving DecidableEq, Repr
 
 /-- `strings.ContainsAny(input, "*?[{")` -/
@@ -431,6 +431,8 @@ def enrichTarget (glob : Bytes → Option (List Bytes)) (dur : Bytes → Option 
   match parseDeps pkg t.deps with
   | none => .error .badLabel
   | some deps =>
+    -- `label.ParseTargetLabel(packagePath, ":"+target.Name)`: the name must pass `validateName`
+    if !validName t.name then .error .badName else
     let lbl : Label := ⟨normPkg pkg, t.name⟩
     if done.any (fun d => d.label = lbl) then .error .dupLabel
     else
@@ -482,6 +484,7 @@ def enrichAliases (targets : List Target) : Bytes → List Alias → List (Optio
     match parseLabel pkg a.actual with
     | none => .error .badLabel
     | some actual =>
+      if !validName a.name then .error .badName else
       let lbl : Label := ⟨normPkg pkg, a.name⟩
       if targets.any (fun t => t.label = lbl) || done.any (fun d => d.label = lbl) then .error .dupLabel
       else enrichAliases targets (normPkg pkg) (⟨lbl, actual⟩ :: done) rest
